@@ -148,6 +148,10 @@ type sessionRegistry struct {
 	draining   bool
 	reaperStop chan struct{}
 	reaperOnce sync.Once
+	// reaperMu orders the lazy reaper start against stopReaper: the
+	// WaitGroup Add must happen before the Wait, and a reaper must not be
+	// started once the stop channel is closed.
+	reaperMu   sync.Mutex
 	reaperWg   sync.WaitGroup
 	reaperTick time.Duration
 }
@@ -302,6 +306,14 @@ func (r *sessionRegistry) shutdown() {
 // Idempotent — only the first call spawns the goroutine.
 func (r *sessionRegistry) ensureReaper() {
 	r.reaperOnce.Do(func() {
+		r.reaperMu.Lock()
+		defer r.reaperMu.Unlock()
+		select {
+		case <-r.reaperStop:
+			// Shut down before the first sticky-aware request: nothing to start.
+			return
+		default:
+		}
 		r.reaperWg.Add(1)
 		go r.reaperLoop()
 	})
@@ -311,13 +323,14 @@ func (r *sessionRegistry) ensureReaper() {
 // Called by Shutdown so the reaper goroutine exits cleanly when an
 // operator has finished their grace period.
 func (r *sessionRegistry) stopReaper() {
+	r.reaperMu.Lock()
 	select {
 	case <-r.reaperStop:
 		// Already stopped.
-		return
 	default:
+		close(r.reaperStop)
 	}
-	close(r.reaperStop)
+	r.reaperMu.Unlock()
 	r.reaperWg.Wait()
 }
 
